@@ -212,7 +212,8 @@ def do_integer(m, rng, spec, conv, n):
     hi = 10**length - 1 if length is not None else 10**15
     vals = [0, 1, hi, hi // 2, rng.randint(0, hi)] + [rng.randint(0, hi) for _ in range(n)]
     if length is None:
-        vals += [-1, -rng.randint(1, 10**9)]
+        # no limit declared: exact at any size (2**53 + 1 is the first integer a float cannot hold)
+        vals += [-1, -rng.randint(1, 10**9), 2**53 + 1, -(2**53 + 1), 2**64 + 1, 10**22 + 1, rng.randint(10**16, 10**40) | 1]
     for v in vals:
         m.ctx.distinct((spec, v))
         m.inverse(conv, spec, v)
@@ -284,6 +285,23 @@ def do_decimal(m, rng, spec, conv, n):
         m.canonical(conv, spec, format(half, "f"), want=half.quantize(q))
         m.reject_write(conv, spec, half, "wrong-quantum-accepted-on-write")
         m.reject_write(conv, spec, q.scaleb(-1), "wrong-quantum-accepted-on-write")
+        # values that are multiples of the quantum but carry another exponent: refusing them is fine; when one is taken,
+        # its text may not have more places than the declared scale and must read back to the same number
+        for v in (D(0).scaleb(-scale - 8), (q * rng.randint(1, 999)).quantize(q.scaleb(-1)), (q * rng.randint(1, 999)).quantize(q.scaleb(-3)),
+                  D(rng.randint(1, 99)), D(rng.randint(1, 9)).scaleb(2), (D(rng.randint(1, 99)) / 2).quantize(D("0.1"))):
+            m.ctx.ev()
+            m.ctx.count("law_scale_write")
+            st, t, _ = m.call(conv, "unconvert", v)
+            if st == "exc":
+                m.ctx.count("other_exponent_refused")
+                continue
+            places = len(t.split(".")[1]) if isinstance(t, str) and "." in t else 0
+            if not isinstance(t, str) or not R.decimal_lexical_ok(t) or places > scale:
+                m.viol("Decimal/written-with-more-places-than-scale", f"{spec}.unconvert({v!r}) -> {t!r} ({places} places, scale {scale})", spec, "scale_write", v)
+                continue
+            st, back, _ = m.call(conv, "convert", t)
+            if st == "exc" or back != v:
+                m.viol("Decimal/other-exponent-written-then-read-differs", f"{spec}: {v!r} -> {t!r} -> {back!r}", spec, "scale_write", v)
     for bad in ("NaN", "Infinity", "-Infinity", "sNaN", "inf", "nan"):
         _rej(m, conv, spec, bad, "decimal/non-finite-accepted")
     for _ in range(n):
